@@ -363,6 +363,10 @@ def driver_view(style, sql, args):
                 def __getitem__(self, k):
                     if k not in args: raise KeyError(k)
                     self.used.add(k); return '%s%s%s' % (MARK, k, MARK)
+                # a positional conversion (%s, %r, ..) in a pyformat statement would consume the whole mapping;
+                # psycopg2 refuses it ("dict is not a sequence")
+                def __str__(self): raise TypeError('positional format conversion with mapping arguments')
+                __repr__ = __str__
             u = Used()
             out = sql % u
             return out
